@@ -97,6 +97,11 @@ def standin(rep: Report):
     for c in ["result = ({0})\n", "print('look it up:', {0})\n", "r = [1, 2, some.where, {0}\n]\n", "x = {{'k':\n {0}}}\n"]:
         for s in sugar_ml:
             srcs.append(c.format(s))
+    # subprocess words glued to a token that spans lines (the merged node's end lies on another line than its start)
+    for op, cl in (("$(", ")"), ("$[", "]"), ("![", "]"), ("!(", ")")):
+        for word in ['--msg="""hello\nworld"""', "-v'''%s\n''' x", 'a"""b\n\nc\n"""d', 'pre$(ls\n  -l)post', "k=@(a,\n b)"]:
+            srcs.append(f"x = {op}echo {word}{cl}\n")
+            srcs.append(f"def f():\n    return {op}printf {word} @(y) done{cl}\n")
     srcs = list(dict.fromkeys(srcs))
     res = oracle.run("parse", [{"src": s, "mode": "exec", "compile": True, "unparse": True, "spans": True} for s in srcs])
     si = StandIn("compile-every-tree", f"{len(srcs)} sources (Python pool, xonsh pool, {len(sugar)} xonsh constructs x {len(ctx)} expression contexts, binding-target forms): "
